@@ -722,6 +722,131 @@ def rule_so1(ctx: Ctx) -> RuleResult:
     return r
 
 
+def _bound_method_under(ctx, site, in_fn, node, config, depth=0):
+    """term of the handler expression under a configuration: a local alias is followed to its single assignment, a conditional
+    expression is decided by the configuration"""
+    from ..executor import St
+    ex = ctx.ex
+    m = site.module
+    if isinstance(node, ast.Name) and depth < 4:
+        sc = m.scopes.get(in_fn)
+        a = ex._single_assignment(sc, node.id) if sc is not None else None
+        if a is not None:
+            return _bound_method_under(ctx, site, in_fn, a.value, config, depth + 1)
+    if isinstance(node, ast.IfExp):
+        tt = ex.eval_in_scope(m, in_fn, node.test, ctx=site.ctx, roles=site.roles, config=config)
+        if tt is None:
+            return None
+        st = St.__new__(St)
+        st.config, st.kind = config, None
+        b = ex.const_truth(tt, st)
+        if b is None:
+            return None
+        return _bound_method_under(ctx, site, in_fn, node.body if b else node.orelse, config, depth + 1)
+    if isinstance(node, ast.Attribute):
+        return ("attr", ("node", ast.unparse(node.value)), node.attr)
+    return ex.eval_in_scope(m, in_fn, node, ctx=site.ctx, roles=site.roles, config=config)
+
+
+def rule_so2(ctx: Ctx) -> RuleResult:
+    """to_deque, the last stage of sort: items (the elements of each item when extend=True) are queued at the right end while the
+    source runs, nothing is emitted before completion, and completion emits the queue from its left end until it is empty, then
+    completes once."""
+    r = RuleResult("SO-2", "to_deque queues at the right end (extend(item) iff extend=True), emits nothing before completion, then emits from the left end "
+                           "until empty and completes once")
+    rel = "rxsci/data/to_deque.py"
+    site = ctx.site(rel, "to_deque._to_deque.on_subscribe", kind="create")
+    r.instances += 1
+    specs = site.handler_specs("on_next")
+    if specs:
+        spec = specs[0]
+        for kind, cfg, paths in ctx.all_paths(spec, kinds=(None,)):
+            for p in paths:
+                r.paths += 1
+                if not _normal(p):
+                    continue
+                r.groups.add(("on_next", cfg_str(cfg), len(r.groups)))
+                mode = {"True": True, "False": False}.get(cfg.get("extend"))
+                if mode is None:
+                    # the flag reaches the handler as an argument: the path's own test of it tells the mode
+                    for e in p.trace:
+                        if e.k != "decision":
+                            continue
+                        tt, pol = e.test, e.outcome
+                        while tt[0] == "not":
+                            tt, pol = tt[1], not pol
+                        if tt[0] == "cmp" and tt[1] in ("Is", "Eq", "IsNot", "NotEq") and ("const", True) in (tt[2], tt[3]):
+                            mode = pol == (tt[1] in ("Is", "Eq"))
+                        elif tt[0] == "cmp" and tt[1] in ("Is", "Eq", "IsNot", "NotEq") and ("const", False) in (tt[2], tt[3]):
+                            mode = pol != (tt[1] in ("Is", "Eq"))
+                        elif tt[0] in ("arg", "param", "free", "bound"):
+                            mode = pol
+                if mode is None:
+                    raise AnalysisError("to_deque: cannot tell on which value of 'extend' the path [%s] is taken" % "; ".join(e.brief() for e in p.trace))
+                muts = [e for e in p.trace if e.k == "mutate"]
+                ems = list(emissions(p))
+                want = "extend" if mode else "append"
+                ok = not ems and len(muts) == 1 and muts[0].method == want and tuple(muts[0].args) == (EV,) and not any(x == EV for x in subterms(muts[0].base))
+                r.ob(ok, lambda cfg=cfg, p=p, want=want, muts=muts: mk_finding(
+                    "SO-2", spec, None, cfg, p, "to_deque must only queue the item with %s(item) and emit nothing before completion; it does: %s / %s" % (
+                        want, [e.brief() for e in muts], summary(p)), extra="queue"))
+    else:
+        # the handler is a bound method of the queue chosen when the subscription is made (queue.extend if extend is True else queue.append)
+        sub = site.subscriptions[0]
+        h = sub.handlers.get("on_next")
+        if h is None or h.how != "method":
+            raise AnalysisError("to_deque: the on_next handler is neither a function nor a bound method of the queue")
+        hnode = h.node
+        if isinstance(hnode, ast.Call) and isinstance(hnode.func, ast.Attribute) and hnode.func.attr in ("subscribe", "subscribe_"):
+            kw = [k.value for k in hnode.keywords if k.arg == "on_next"]
+            hnode = kw[0] if kw else (hnode.args[0] if hnode.args else None)
+        if hnode is None:
+            raise AnalysisError("to_deque: the on_next handler expression was not found")
+        for val, want in (("True", "extend"), ("False", "append")):
+            tt = _bound_method_under(ctx, site, sub.in_fn, hnode, {"extend": val})
+            r.paths += 1
+            r.groups.add(("on_next", val))
+            ok = tt is not None and tt[0] == "attr" and tt[2] == want
+            r.ob(ok, lambda val=val, want=want, tt=tt: Finding(
+                "SO-2", "%s::to_deque{queue}" % rel, site.module.where(hnode), "with extend=%s every item must be queued with %s; the handler is %s" % (
+                    val, want, show(tt) if tt is not None else "undetermined")))
+    cs = site.handler_specs("on_completed")
+    if not cs:
+        r.ob(False, lambda: Finding("SO-2", "%s::to_deque{on_completed}" % rel, site.where(), "to_deque has no completion handler: the queued items are never emitted"))
+        return r
+    cspec = cs[0]
+    saw_item = saw_empty = False
+    for p in ctx.paths(cspec, None, {}):
+        r.paths += 1
+        if p.outcome == "raise":
+            continue       # an exception of the downstream observer
+        r.groups.add(("on_completed", len(r.groups)))
+        ems = list(emissions(p))
+        items = [m for m in ems if m.method == "on_next" and not m.raised]
+        done = [m for m in ems if m.method == "on_completed"]
+        pops = [e for e in p.trace if e.k == "mutate" and not any(x == EV for x in subterms(e.base))]
+        queue = pops[0].base if pops else None
+        items = [m for m in items if not any(e.k == "except" for e in p.trace[p.trace.index(m.eff):p.trace.index(m.eff) + 2])]
+        ok = all(e.method == "popleft" and not e.args and e.base == queue for e in pops)
+        r.ob(ok, lambda p=p, pops=pops: mk_finding("SO-2", cspec, None, {}, p, "the queue must be emptied from its left end (popleft): the items were queued at the "
+                                                   "right end and must leave in arrival order; it does %s" % [e.brief() for e in pops], extra="fifo"))
+        ok = all(m.eff.arg[0] == "mcall" and m.eff.arg[1] == queue and m.eff.arg[2] == "popleft" for m in items)
+        r.ob(ok, lambda p=p, items=items: mk_finding("SO-2", cspec, None, {}, p, "every emitted item must be the element just taken from the queue; emitted: %s" % [
+            show(m.eff.arg) for m in items], extra="item"))
+        if items:
+            saw_item = True
+        if any(e.k == "except" for e in p.trace):
+            saw_empty = True
+        ok = len(done) == 1 and ems and ems[-1] is done[0]
+        if not p.truncated or done:
+            r.ob(ok, lambda p=p: mk_finding("SO-2", cspec, None, {}, p, "after the queue is empty the completion must be forwarded, once and last; this path: %s" % summary(p),
+                                            extra="completed"))
+    r.ob(saw_item and saw_empty, lambda: Finding("SO-2", "%s::to_deque{flush}" % rel, site.where(),
+                                                 "the completion handler must emit the queued items in a loop that ends when the queue is empty"))
+    r.require_instances(1)
+    return r
+
+
 def rule_opt1(ctx: Ctx) -> RuleResult:
     """An optional padding value is told from 'not given' by identity with None only: an explicit falsy value (0, '', False, 0.0)
     pads like any other explicit value.  The handlers are re-run with the parameter bound to an abstract value that is not None,
@@ -771,4 +896,4 @@ def rule_opt1(ctx: Ctx) -> RuleResult:
     return r
 
 
-RULES = [rule_fw2, rule_dp6, rule_dp8, rule_so1, rule_opt1]
+RULES = [rule_fw2, rule_dp6, rule_dp8, rule_so1, rule_so2, rule_opt1]
